@@ -167,10 +167,56 @@ def discharge(rec, plan=None, seed=0, budget_scale=1.0):
                     model = None
             return dict(status="sat", backend=backend, variant=variant, seconds=round(time.time() - t0, 3),
                         attempts=attempts, model=model)
-        if st == "sat":
+        if st == "sat" and not sat_seen:
             sat_seen = True
+            r = _try_families(smt, rec, attempts, seed, 4 * budget_scale, t0)
+            if r is not None:
+                return r
+            tried_fam = True
+    # refutation search: 'sat' on a weakened query is not a counterexample, but a model of the FULL query restricted to a
+    # sub-family of the inputs is one (extra constraints only shrink the model space).  Rotations are pinned to
+    # one-parameter families, where nlsat finds models quickly.
+    if sat_seen:
+        r = _try_families(smt, rec, attempts, seed, 20 * budget_scale, t0)
+        if r is not None:
+            return r
     return dict(status="unknown", backend=None, variant=None, seconds=round(time.time() - t0, 3), attempts=attempts,
                 model=None, sat_on_weakened=sat_seen)
+
+
+def _try_families(smt, rec, attempts, seed, tmo, t0):
+    if not smt.get("full") or rec.get("kind") in ("canary", "cover"):
+        return None
+    for fam_name, extra in pose_families(smt["full"]):
+        t1 = time.time()
+        text = smt["full"].replace("(check-sat)", extra + "\n(check-sat)")
+        try:
+            st, model = run_z3_api(text, "nra", tmo, seed)
+        except Exception:
+            st, model = "unknown", None
+        attempts.append(("full+" + fam_name, "nra", st, round(time.time() - t1, 3)))
+        if st == "sat":
+            return dict(status="sat", backend="nra", variant="full+" + fam_name, seconds=round(time.time() - t0, 3),
+                        attempts=attempts, model=model)
+    return None
+
+
+def pose_families(full_text):
+    """sub-families of SO(3) for every pose <name>_Rij declared in the query: rotations about one coordinate axis"""
+    names = sorted(set(re.findall(r"\(declare-fun ([A-Za-z0-9_]+)_R00 \(\) Real\)", full_text)))
+    if not names:
+        return []
+    fams = []
+    for axis, zero, one in (("z", ["02", "12", "20", "21"], "22"), ("x", ["01", "02", "10", "20"], "00"), ("y", ["01", "10", "12", "21"], "11")):
+        parts = []
+        for n in names:
+            for z in zero:
+                if "%s_R%s " % (n, z) in full_text:
+                    parts.append("(assert (= %s_R%s 0.0))" % (n, z))
+            if "%s_R%s " % (n, one) in full_text:
+                parts.append("(assert (= %s_R%s 1.0))" % (n, one))
+        fams.append(("rot-" + axis, "\n".join(parts)))
+    return fams
 
 
 # ---- building the SMT2 texts ----------------------------------------------------------------------
